@@ -29,7 +29,7 @@ ROOTS = [["n", [1, 0]], ["n", [0, 0, 0, 1]], ["n", [S2, S2]], ["n", [S2, [0, S2]
          ["ncol", [0.6, 0.8]], ["ncol", [0.5, [0, 0.5], [0, -0.5], 0.5]],
          # symbolic roots over symbols with assumptions (real / positive), and a mixed root with an imaginary numeric entry
          ["sr", ["a", "b"]], ["sr", ["a", 0.6]], ["s", ["a", [0, 0.5], "b", 0.5]]]
-VALUES = [0, 1, 0.6, 0.8, 0.5, S2, [0, S2], [0, -S2], -0.6, "a", "c"]
+VALUES = [0, 1, 0.6, 0.8, 0.5, S2, [0, S2], [0, -S2], -0.6, "a", "c", "nan", "inf"]     # nan / inf: never an amplitude - must be refused, and the refusal must roll back
 BIND_VALUES = [0.5, 0.1, 0.9, 0.6, "c"]
 
 
@@ -39,6 +39,8 @@ _ACTIVE = [SYM]
 def val(v):
     if isinstance(v, list):
         return complex(v[0], v[1])
+    if v in ("nan", "inf"):
+        return float(v)
     if isinstance(v, str):
         return _ACTIVE[0][v]
     return v
@@ -68,6 +70,8 @@ def entry(x):
             return "sym:" + sympy.srepr(x)
         x = complex(x)
     x = complex(x)
+    if x != x or abs(x) == float("inf"):
+        return "non-finite:" + str(x)
     return [round(x.real, 12) + 0.0, round(x.imag, 12) + 0.0]
 
 
@@ -86,6 +90,8 @@ def is_num(v):
 def model_valid(vec):
     nums = [complex(v) for v in vec if is_num(v)]
     tot = sum(abs(x) ** 2 for x in nums)
+    if tot != tot or tot == float("inf"):
+        return False        # a NaN / infinite entry is not an amplitude
     if len(nums) == len(vec):
         return abs(tot - 1) < 1e-6
     return tot <= 1 + 1e-6
@@ -94,6 +100,8 @@ def model_valid(vec):
 def invariant(wf):
     """the object's own state satisfies the normalisation rule"""
     snap = snapshot(wf)
+    if any(isinstance(e, str) and e.startswith("non-finite") for e in snap):
+        return False, "a NaN / infinite amplitude is stored: %s" % snap
     nums = [complex(e[0], e[1]) for e in snap if isinstance(e, list)]
     tot = sum(abs(x) ** 2 for x in nums)
     if bin(len(snap)).count("1") != 1:
@@ -525,5 +533,9 @@ def run(run):
     Dw = [{"n": n, "k": k} for n in ((9, 10, 11, 12, 13, 14) if thorough else (9, 10, 12)) for k in sorted({0, 1, 2, n // 2, n - 1, n})]
     secs.append(Section("dicke_wide", Dw, dicke_case, chunk=1, desc="dicke_state(n,k) for n = 9-12 (thorough 14), k in {0, 1, 2, n/2, n-1, n}"))
     io_cases = [c for c in seen.values()][:: (1 if thorough else 3)]
+    # states the object accepts although their norm is only tolerance-close to 1 (rounded amplitudes, states reached by small assignments): "the same amplitudes" come back, not nearby ones
+    near = [["n", [0.70711, 0.70711]], ["n", [0.6000004, 0.8]], ["ncol", [0.70711, [0, 0.70711]]], ["n", [0.5, 0.5, 0.5, 0.500003]], ["n", [0.316228, 0.316228, [0, 0.632456], 0.632456]],
+            ["n", [0.999997, 0]], ["n", [0, 0, 0, [0.6, -0.800003]]]]
+    io_cases += [{"root": r, "hist": h} for r in near for h in ([], [["set", 0, 0.7071], ["set", -1, 0.70712]] if len(r[1]) == 2 else [["set", 1, 0.500001], ["flip"]])]
     secs.append(Section("save_load", io_cases, io_case, desc="save_/load_wavefunction on reachable numeric states (path, open file, StringIO)"))
     run.run_sections(secs)
